@@ -50,6 +50,7 @@ type FuncContract struct {
 	File     string
 	Line     int
 	Spawns   []*Clause // spawn effects for closures started with `go`
+	AtCalls  map[string][]*Clause // callee name -> obligations at every call of that callee inside this function
 	Used     bool
 }
 
@@ -326,6 +327,7 @@ func (cs *Contracts) loadContractFile(path, pkgPath string, short map[string]str
 			if curF == nil {
 				return fail("%s outside a function contract", word)
 			}
+			rest = cs.expandModSets(rest)
 			c, err := parseClause(word, rest, path, lineNo)
 			if err != nil {
 				return err
@@ -401,6 +403,22 @@ func (cs *Contracts) loadContractFile(path, pkgPath string, short map[string]str
 				}
 				curF.Modifies = append(curF.Modifies, me)
 			}
+		case "atcall":
+			if curF == nil {
+				return fail("atcall outside a function contract")
+			}
+			f := strings.SplitN(rest, " ", 2)
+			if len(f) != 2 {
+				return fail("atcall <callee> [tags] label: expr")
+			}
+			c, err := parseClause("atcall", cs.expandModSets(strings.TrimSpace(f[1])), path, lineNo)
+			if err != nil {
+				return err
+			}
+			if curF.AtCalls == nil {
+				curF.AtCalls = map[string][]*Clause{}
+			}
+			curF.AtCalls[f[0]] = append(curF.AtCalls[f[0]], c)
 		case "havocs":
 			if curF == nil {
 				return fail("havocs outside a function contract")
@@ -554,19 +572,22 @@ func (cs *Contracts) loadContractFile(path, pkgPath string, short map[string]str
 				return err
 			}
 			cs.Axioms = append(cs.Axioms, &AxiomDef{Name: c.Label, E: c.E, Src: c.Src, Pkg: pkgPath})
-		case "modset":
+		case "modset", "macro":
 			// modset hs(c) := c.a, c.b, ...
-			m := regexp.MustCompile(`^(\w+)\((\w+)\)\s*:=\s*(.*)$`).FindStringSubmatch(rest)
+			m := regexp.MustCompile(`^(\w+)\((\w*)\)\s*:=\s*(.*)$`).FindStringSubmatch(rest)
 			if m == nil {
 				return fail("modset name(x) := list")
 			}
 			cs.ModSets[m[1]] = [2]string{m[2], m[3]}
+			if word == "macro" {
+				cs.ModSets[m[1]] = [2]string{m[2], "(" + m[3] + ")"}
+			}
 		case "objinv":
 			m := regexp.MustCompile(`^\((\w+)\s+\*?([\w./]+)\)\s+(.*)$`).FindStringSubmatch(rest)
 			if m == nil {
 				return fail("objinv (x *T) [tags] label: expr")
 			}
-			c, err := parseClause("objinv", m[3], path, lineNo)
+			c, err := parseClause("objinv", cs.expandModSets(m[3]), path, lineNo)
 			if err != nil {
 				return err
 			}
@@ -688,12 +709,26 @@ func findContractFiles(repo string) ([]string, error) {
 
 // expandModSets replaces @name(arg) by the macro's list with the parameter substituted.
 func (cs *Contracts) expandModSets(s string) string {
+	for i := 0; i < 5; i++ {
+		n := cs.expandModSets1(s)
+		if n == s {
+			break
+		}
+		s = n
+	}
+	return s
+}
+
+func (cs *Contracts) expandModSets1(s string) string {
 	re := regexp.MustCompile(`@(\w+)\(([^()]*)\)`)
 	return re.ReplaceAllStringFunc(s, func(m string) string {
 		sm := re.FindStringSubmatch(m)
 		ms, ok := cs.ModSets[sm[1]]
 		if !ok {
 			return m
+		}
+		if ms[0] == "" {
+			return ms[1]
 		}
 		pr := regexp.MustCompile(`\b` + regexp.QuoteMeta(ms[0]) + `\b`)
 		return pr.ReplaceAllString(ms[1], sm[2])
